@@ -138,6 +138,48 @@ pub fn ops_from_json(j: &Json) -> Option<Vec<Op>> {
     j.as_arr()?.iter().map(Op::from_json).collect()
 }
 
+
+/// Concrete-handle versions of the requests (shared by `Exec` and by the
+/// fresh-state reference of `sim-hist`).
+pub fn do_top<'p>(ctx: &mut Ctx<'p>, t: &Thunk<'p>, tla: &[(String, bool, String)]) -> (Out, Option<Value<'p>>) {
+    let v = match ctx.eval(t) {
+        Ok(v) => v,
+        Err(o) => return (o, None),
+    };
+    let v = if v.is_function() {
+        let ft = ctx.program.value_to_thunk(&v);
+        let mut named = Vec::new();
+        for (name, is_code, text) in tla {
+            let th = if *is_code {
+                let vname = format!("<tla:{name}>");
+                match ctx.cb.load_data(&mut ctx.program, &vname, text.as_bytes()) {
+                    Ok(t) => t,
+                    Err(o) => return (o, None),
+                }
+            } else {
+                ctx.program.value_to_thunk(&Value::string(text))
+            };
+            named.push((name.clone(), th));
+        }
+        match ctx.call(&ft, &[], &named) {
+            Ok(v) => v,
+            Err(o) => return (o, None),
+        }
+    } else if !tla.is_empty() {
+        return (Out::Ok("<tla given but root is not a function>".into()), None);
+    } else {
+        v
+    };
+    let out = ctx.manifest(&v, true);
+    (out, Some(v))
+}
+
+pub fn do_make_array<'p>(ctx: &mut Ctx<'p>, vs: &[Value<'p>]) -> (Out, Value<'p>) {
+    let v = ctx.program.make_array(vs);
+    let out = ctx.manifest(&v, false);
+    (out, v)
+}
+
 /// How the abstract operands of an executed op were resolved: indices of the
 /// ops that produced the handles it used.
 #[derive(Clone, Debug, Default)]
@@ -157,12 +199,11 @@ pub struct Exec<'p> {
     pub values: Vec<(usize, Value<'p>)>,
     pub max_stack: usize,
     pub explicit_gcs: u64,
-    pub tla_counter: u32,
 }
 
 impl<'p> Exec<'p> {
     pub fn new(ctx: Ctx<'p>) -> Self {
-        Exec { ctx, thunks: Vec::new(), values: Vec::new(), max_stack: 500, explicit_gcs: 0, tla_counter: 0 }
+        Exec { ctx, thunks: Vec::new(), values: Vec::new(), max_stack: 500, explicit_gcs: 0 }
     }
 
     fn sel_thunk(&self, h: u32) -> Option<usize> {
@@ -227,37 +268,8 @@ impl<'p> Exec<'p> {
                 };
                 res.thunk = Some(self.thunks[k].0);
                 let t = self.thunks[k].1.clone();
-                let v = match self.ctx.eval(&t) {
-                    Ok(v) => v,
-                    Err(o) => return o,
-                };
-                let v = if v.is_function() {
-                    let ft = self.ctx.program.value_to_thunk(&v);
-                    let mut named = Vec::new();
-                    for (name, is_code, text) in tla {
-                        let th = if *is_code {
-                            self.tla_counter += 1;
-                            let vname = format!("<tla:{name}>");
-                            match self.ctx.cb.load_data(&mut self.ctx.program, &vname, text.as_bytes()) {
-                                Ok(t) => t,
-                                Err(o) => return o,
-                            }
-                        } else {
-                            self.ctx.program.value_to_thunk(&Value::string(text))
-                        };
-                        named.push((name.clone(), th));
-                    }
-                    match self.ctx.call(&ft, &[], &named) {
-                        Ok(v) => v,
-                        Err(o) => return o,
-                    }
-                } else if !tla.is_empty() {
-                    return Out::Ok("<tla given but root is not a function>".into());
-                } else {
-                    v
-                };
-                let out = self.ctx.manifest(&v, true);
-                if *keep {
+                let (out, v) = do_top(&mut self.ctx, &t, tla);
+                if let (true, Some(v)) = (*keep, v) {
                     self.values.push((i, v));
                 }
                 out
@@ -318,8 +330,7 @@ impl<'p> Exec<'p> {
                     res.values.push(self.values[k].0);
                     vs.push(self.values[k].1.clone());
                 }
-                let v = self.ctx.program.make_array(&vs);
-                let out = self.ctx.manifest(&v, false);
+                let (out, v) = do_make_array(&mut self.ctx, &vs);
                 self.values.push((i, v));
                 out
             }
